@@ -16,7 +16,7 @@ for f in [g for g in glob.glob(src + "/demo/**/*", recursive=True) if os.path.is
 head = subprocess.run(["git","-C","/repo","rev-parse","--short","HEAD"],capture_output=True,text=True).stdout.strip()
 meta = {
   "property": prop, "variant": x, "round": int(os.environ.get("ROUND", "2")),
-  "origin": "independent sub-agent given only the property record and a scratch worktree of /repo (nothing from /verif); " + ("round 3 asked for one value-level slip (G) and one structure-level slip (H)" if os.environ.get("ROUND") == "3" else "round 2 asked for three changes away from the most obvious site"),
+  "origin": "independent sub-agent given only the property record and a scratch worktree of /repo (nothing from /verif); " + {"3": "round 3 asked for one value-level slip (G) and one structure-level slip (H)", "4": "round 4 asked for one addition made in good faith (I) and one change outside the anchored files (J)", "5": "round 5 asked for one concurrency or ordering slip (K) and one misuse of an API contract (L)", "6": "round 6 asked for one error-path or partial-failure slip (M)"}.get(os.environ.get("ROUND", "2"), "round 2 asked for three changes away from the most obvious site"),
   "demo_files": demos, "demo_layout": "demo/<path in tree>/<file>.txt -> copy to <path in tree>/<file>",
   "confirmed_at_repo_head": head,
   "what_i_ran": "tools/confirm_seed2.sh /tmp/wt/out-%sr/%s %s-%s (scratch worktree of /repo HEAD: demo passes unmodified, patch applies, full suite passes with patch, demo fails with patch)" % (prop,x,prop,x),
